@@ -120,7 +120,7 @@ def check_program(prog, d, vecs, lang='c'):
 
 def one_program(ctx, idx, lang, nvec):
     rng = ctx.subrng('prog', idx)
-    prog = progen.gen(rng, lang=lang, bias='safe', profile='full' if idx % 2 else 'calibrated')
+    prog = progen.gen(rng, lang=lang, bias='safe', profile='calibrated')
     d = ctx.tmpdir('p%d' % idx)
     try:
         vecs = prog.input_vectors(rng, nvec)
